@@ -296,6 +296,7 @@ class Data(object):
         if axis == verif.axis.All():
             I = np.where(valid == 0)
             for i in range(0, len(fields)):
+                scores[i] = scores[i].copy()
                 scores[i][I[0], I[1], I[2]] = np.nan
         else:
             I = np.where(valid)
